@@ -185,6 +185,19 @@ fn account<P: Prop>(prop: &P, known: &Known, st: &mut ShardState, case: &P::Case
     }
 }
 
+/// Run one case; a panic that escapes the property code itself (as opposed to
+/// one trapped around a library call) is turned into a failure.
+fn safe_run<P: Prop>(prop: &P, case: &P::Case) -> CaseResult {
+    match crate::sut::trap(|| prop.run(case)) {
+        Ok(r) => r,
+        Err(m) => {
+            let mut r = CaseResult::default();
+            r.fail(format!("{}:uncaught_panic:{}", prop.id(), crate::sut::panic_kind(&m)), format!("panic outside a trapped library call: {}", m));
+            r
+        }
+    }
+}
+
 fn unknown_failures<'a>(id: &str, known: &Known, res: &'a CaseResult) -> Vec<&'a Failure> {
     res.failures.iter().filter(|f| known.find(id, &f.sig).is_none()).collect()
 }
@@ -215,7 +228,7 @@ fn run_shard<P: Prop>(
             if violation.is_some() || stop.load(Ordering::Relaxed) {
                 return;
             }
-            let res = prop.run(&case);
+            let res = safe_run(prop, &case);
             account(prop, known, &mut st.borrow_mut(), &case, &res, true);
             let unk = unknown_failures(prop.id(), known, &res);
             if !unk.is_empty() {
@@ -260,7 +273,7 @@ fn run_shard<P: Prop>(
                 return Ok(());
             }
         }
-        let res = prop.run(&case);
+        let res = safe_run(prop, &case);
         let unk = unknown_failures(prop.id(), known, &res);
         let mut s = st.borrow_mut();
         if let Some(target) = s.target_sig.clone() {
@@ -284,7 +297,7 @@ fn run_shard<P: Prop>(
     match result {
         Ok(()) => {}
         Err(TestError::Fail(_, minimal)) => {
-            let res = prop.run(&minimal);
+            let res = safe_run(prop, &minimal);
             let fs: Vec<Failure> = unknown_failures(prop.id(), known, &res).into_iter().cloned().collect();
             violation = Some((minimal, fs));
         }
@@ -475,7 +488,7 @@ pub fn replay_property<P: Prop>(prop: &P, path: &Path) -> i32 {
             return 2;
         }
     };
-    let res = prop.run(&case);
+    let res = safe_run(prop, &case);
     let mut bad = false;
     for f in &res.failures {
         if let Some(k) = known.find(prop.id(), &f.sig) {
